@@ -55,6 +55,8 @@ type c01Eng struct {
 	// hash→digest tables (functions), see algTable
 	tables     map[*ssa.Function]*c01AlgTable
 	tablesBusy map[*ssa.Function]bool
+	// calls of tuple-returning module helpers, per function (see "a pipeline helper that hands back several results")
+	resCalls map[*ssa.Function][]*c01ResCall
 }
 
 var c01Engines = map[*World]*c01Eng{}
@@ -462,6 +464,9 @@ func (e *c01Eng) summarizeFrom(fi *FnInfo, mode Mode, starts []state, baseCut ma
 		if tail != nil && e.tailBlockedByCell(fi, tail, tmode, endMask) {
 			continue
 		}
+		if failsOnEveryEdge(r, mode, baseCut) {
+			continue
+		}
 		ek := exitKey{r, st.p}
 		if _, ok := exits[ek]; !ok {
 			ip, ifld := fi.inheritedCell(r, st.p, mode)
@@ -578,6 +583,7 @@ func (e *c01Eng) summarizeFrom(fi *FnInfo, mode Mode, starts []state, baseCut ma
 				ex.Checked["EQ("+descTailErr(t)+",nil)"] = w.InstrPos(t)
 			}
 		}
+		e.refineByResults(fi, ex)
 		s.Exits = append(s.Exits, ex)
 	}
 	first := true
@@ -596,6 +602,59 @@ func (e *c01Eng) summarizeFrom(fi *FnInfo, mode Mode, starts []state, baseCut ma
 		}
 	}
 	return s
+}
+
+// failsOnEveryEdge: the returning block hands back an error value v (not a phi of that block) and every edge into the
+// block that is not cut is the `v != nil` edge of a test of that very value. The engine knows an error to be non-nil
+// when the return is *dominated* by such a test; in
+//
+//	if err != nil || payload == nil { return outcome, err }
+//
+// the return is shared by two edges, and once the `payload == nil` edge is out of consideration (cut: it is the skip
+// edge, or the edge on which the fact under analysis holds) only the `err != nil` edge leads to it. SSA values are
+// immutable, so on every path that is considered the returned error is not nil: the exit is a failure exit.
+func failsOnEveryEdge(r *ssa.Return, mode Mode, cut map[edgeKey]bool) bool {
+	if mode.Kind != mErr {
+		return false
+	}
+	v := modeOperand(r, mode)
+	if v == nil {
+		return false
+	}
+	b := r.Block()
+	if p, ok := v.(*ssa.Phi); ok && p.Block() == b {
+		return false
+	}
+	n := 0
+	for _, p := range b.Preds {
+		iff, isIf := blockTerm(p).(*ssa.If)
+		for j, s := range p.Succs {
+			if s != b || cut[edgeKey{p.Index, j}] {
+				continue
+			}
+			if !isIf || len(p.Succs) != 2 || p.Succs[0] == p.Succs[1] || !condSaysNonNil(iff.Cond, j == 0, v) {
+				return false
+			}
+			n++
+		}
+	}
+	return n > 0
+}
+
+// condSaysNonNil: cond evaluating to truth says v != nil.
+func condSaysNonNil(cond ssa.Value, truth bool, v ssa.Value) bool {
+	switch x := cond.(type) {
+	case *ssa.UnOp:
+		if x.Op == token.NOT {
+			return condSaysNonNil(x.X, !truth, v)
+		}
+	case *ssa.BinOp:
+		if !(x.X == v && isNilConst(x.Y)) && !(x.Y == v && isNilConst(x.X)) {
+			return false
+		}
+		return (x.Op == token.NEQ && truth) || (x.Op == token.EQL && !truth)
+	}
+	return false
 }
 
 // c01Wit: what successWitness does not count as a success exit.
@@ -630,6 +689,9 @@ func (e *c01Eng) successWitness(fi *FnInfo, mode Mode, starts []state, cut map[e
 				cl = clFail // as in summarizeFrom: the callee reports the error cell of an object that already carries a failure here
 			}
 			if cl != clFail && tail != nil && opt.DischargedTail != nil && opt.DischargedTail(tail, tmode) {
+				cl = clFail
+			}
+			if cl != clFail && failsOnEveryEdge(r, mode, cut) {
 				cl = clFail
 			}
 			if cl == clMaybe && tail == nil && oplbl != "" && opt.DischargedOp != nil && opt.DischargedOp(oplbl) {
@@ -682,16 +744,21 @@ func (e *c01Eng) successWitness(fi *FnInfo, mode Mode, starts []state, cut map[e
 type c01Frame struct {
 	names, descs []string
 	tag          string // "" for the entry point
+	// canon (entry point only): descriptions of the results of a pipeline helper restated as the objects they denote
+	canon func(string) string
 }
 
 var c01FrameCount = 0
 
 func c01CalleeFrame(names, descs []string) c01Frame {
 	c01FrameCount++
-	return c01Frame{names, descs, fmt.Sprintf("#%d", c01FrameCount)}
+	return c01Frame{names: names, descs: descs, tag: fmt.Sprintf("#%d", c01FrameCount)}
 }
 
 func (f c01Frame) sub(l string) string {
+	if f.canon != nil {
+		l = f.canon(l)
+	}
 	if f.tag != "" {
 		l = strings.ReplaceAll(l, "alloc:", "alloc"+f.tag+":")
 	}
@@ -801,7 +868,7 @@ func c01Metadata(c *Ctx, fn *ssa.Function, payloadAlloc, outcomeDesc, pre string
 		annE:     payloadAlloc + ".TargetArtifact.Annotations",
 		contentE: outcomeDesc + ".EnvelopeContent.Payload.Content",
 	}
-	ok, wit, site := m.holds(fn, Mode{Kind: mErr}, c01Frame{}, []string{m.annE}, true, 0)
+	ok, wit, site := m.holds(fn, Mode{Kind: mErr}, c01Frame{canon: m.e.canon(fn)}, []string{m.annE}, true, 0)
 	c.Evals++
 	if ok {
 		c.OK(pre+"/metadata-gate", rule, site)
@@ -1450,4 +1517,389 @@ func c01HashDigestMaps(w *World) string {
 	}
 	sort.Strings(names)
 	return "(?:" + strings.Join(names, "|") + ")"
+}
+
+// ---- a pipeline helper that hands back several results -------------------------------------
+//
+// Class of rewrite: the common front part of the entry points (allocate the outcome, the skip gate, the signature
+// processing, the payload decoding) is extracted into ONE helper that hands back everything the rest needs as a tuple,
+//
+//	outcome, payload, err := v.front(…)            // (*Outcome, *Payload, error)
+//	if err != nil || payload == nil { return outcome, err }
+//
+// and tells the caller which of its exits was taken through a *sentinel* among the results (a nil payload, or a boolean
+// such as `skipped`). Three things are then no longer visible in the entry point's own body; each is re-established
+// from the helper's exits, not from its text or name:
+//
+//  (1) Facts. The engine composes `g(…)#err == nil` with the facts common to ALL success exits of g — here that includes
+//      the skip exit, which passes none of the integrity checks. But an exit of the caller that must also pass
+//      `g(…)#k != nil` (or `g(…)#k` false / true) was not reached through an exit of g that returns the constant nil
+//      (true / false) as result k: SSA results of one return instruction belong to one and the same execution of g, so
+//      the facts common to the success exits of g *whose k-th result can have the tested value* hold
+//      (refineByResults). Nothing is assumed about which exits those are; they are g's own return instructions.
+//
+//  (2) The skip gate. An edge `g(…)#k == nil` that is only reachable through `g(…)#err == nil` is a skip edge when every
+//      success-capable exit of g that is reachable with g's own skip edges removed returns a provably non-nil k-th
+//      result: then "err == nil and result k == nil" can only have come out of an exit behind g's level==skip edge, i.e.
+//      the edge says what the inline `level == skip` edge says (sentinelSkipEdges). The requirement that the edge is
+//      dominated by err == nil matters: a failed g also hands back nil, and that must not be mistaken for skip.
+//
+//  (3) Identity of the objects. `g(…)#k`, when it is not nil, is the object g allocated, if every return of g hands back
+//      as result k either the constant nil or one and the same allocation site (not in a loop) of g, the only one of g and of the caller that is described that way; the facts g
+//      established about "alloc:T<…>" (the decoding target, the outcome handed to the signature processing) and the facts
+//      the caller establishes about `g(…)#k` (the comparisons) are then facts about one object, and are stated under
+//      the allocation's description (c01Canon; only when g is called once in the caller and not in a loop).
+
+type c01ResCall struct {
+	c      *ssa.Call
+	g      *ssa.Function
+	ks     []int    // indexes of the results that can serve as sentinel / carry an object (not the error)
+	alias  []string // per result index: description of the allocation of g it denotes when not nil ("" none)
+	unique bool
+}
+
+// resultCalls: the static calls in fn of module functions that return a tuple ending in an error.
+func (e *c01Eng) resultCalls(fn *ssa.Function) []*c01ResCall {
+	if rc, ok := e.resCalls[fn]; ok {
+		return rc
+	}
+	var out []*c01ResCall
+	count := map[*ssa.Function]int{}
+	for _, ci := range allCalls(fn) {
+		c, ok := ci.(*ssa.Call)
+		if !ok || c.Call.IsInvoke() {
+			continue
+		}
+		g := staticCallee(c)
+		if g == nil || g == fn || g.Blocks == nil || !e.w.IsProductFn(g) || g.Recover != nil || len(c.Call.Args) != len(g.Params) {
+			continue
+		}
+		count[g]++
+		tup, ok := c.Type().(*types.Tuple)
+		if !ok || tup.Len() < 2 || !isErrorType(tup.At(tup.Len()-1).Type()) {
+			continue
+		}
+		rc := &c01ResCall{c: c, g: g, alias: make([]string, tup.Len())}
+		for k := 0; k < tup.Len()-1; k++ {
+			switch tup.At(k).Type().Underlying().(type) {
+			case *types.Pointer:
+				rc.ks = append(rc.ks, k)
+				// (descriptions name an allocation by type and syntax only: the restatement is made only when that
+				// description denotes no other allocation of the helper and none of the caller)
+				if a := resultObject(g, k); a != nil && c01AllocsDescribed(g, desc(a)) == 1 && c01AllocsDescribed(fn, desc(a)) == 0 {
+					rc.alias[k] = desc(a)
+				}
+			case *types.Basic:
+				if isBoolType(tup.At(k).Type()) {
+					rc.ks = append(rc.ks, k)
+				}
+			}
+		}
+		if len(rc.ks) > 0 {
+			out = append(out, rc)
+		}
+	}
+	for _, rc := range out {
+		rc.unique = count[rc.g] == 1 && !blockReaches(rc.c.Block(), rc.c.Block())
+	}
+	if e.resCalls == nil {
+		e.resCalls = map[*ssa.Function][]*c01ResCall{}
+	}
+	e.resCalls[fn] = out
+	return out
+}
+
+// c01AllocsDescribed: the number of allocation sites of fn that are described as d.
+func c01AllocsDescribed(fn *ssa.Function, d string) int {
+	n := 0
+	for _, b := range fn.Blocks {
+		for _, in := range b.Instrs {
+			if a, ok := in.(*ssa.Alloc); ok && desc(a) == d {
+				n++
+			}
+		}
+	}
+	return n
+}
+
+// resultObject: the allocation of g that result k denotes whenever it is not nil (see (3)); nil if there is none.
+func resultObject(g *ssa.Function, k int) *ssa.Alloc {
+	var obj *ssa.Alloc
+	seen := map[ssa.Value]bool{}
+	var leaf func(v ssa.Value) bool
+	leaf = func(v ssa.Value) bool {
+		if seen[v] {
+			return true
+		}
+		seen[v] = true
+		switch x := v.(type) {
+		case *ssa.Const:
+			return x.IsNil()
+		case *ssa.Phi:
+			for _, ed := range x.Edges {
+				if !leaf(ed) {
+					return false
+				}
+			}
+			return true
+		case *ssa.Alloc:
+			if obj != nil && obj != x {
+				return false
+			}
+			obj = x
+			return true
+		}
+		return false
+	}
+	for _, b := range g.Blocks {
+		r, ok := blockTerm(b).(*ssa.Return)
+		if !ok {
+			continue
+		}
+		if k >= len(r.Results) || !leaf(r.Results[k]) {
+			return nil
+		}
+	}
+	if obj == nil || blockReaches(obj.Block(), obj.Block()) {
+		return nil
+	}
+	return obj
+}
+
+// exitResult: the value exit ex of a function hands back as result k, and the block in which it is decided.
+func exitResult(ex *ExitSum, k int) (ssa.Value, *ssa.BasicBlock) {
+	if ex.Ret == nil || k >= len(ex.Ret.Results) {
+		return nil, nil
+	}
+	v, b := ex.Ret.Results[k], ex.Ret.Block()
+	if p, ok := v.(*ssa.Phi); ok && p.Block() == b && ex.Pred >= 0 && ex.Pred < len(p.Edges) {
+		return p.Edges[ex.Pred], b.Preds[ex.Pred]
+	}
+	return v, b
+}
+
+// c01Sentinel: a tested value of a result: nil / not nil for pointers, true / false for booleans.
+type c01Sentinel struct {
+	label string // the fact as an edge label of the caller
+	// excluded: an exit of g that hands back v as that result cannot have produced the tested value
+	excluded func(v ssa.Value) bool
+}
+
+func c01Sentinels(rc *c01ResCall, k int) []c01Sentinel {
+	r := res(rc.c, k)
+	tup := rc.c.Type().(*types.Tuple)
+	if isBoolType(tup.At(k).Type()) {
+		isConst := func(want bool) func(ssa.Value) bool {
+			return func(v ssa.Value) bool { b, ok := boolConst(v); return ok && b == want }
+		}
+		var out []c01Sentinel
+		for _, l := range c01TruthLabels(r) {
+			out = append(out, c01Sentinel{l, isConst(false)})
+		}
+		for _, l := range []string{"F(" + r + ")", "EQ(" + r + ",const:false)", "NE(" + r + ",const:true)"} {
+			out = append(out, c01Sentinel{l, isConst(true)})
+		}
+		return out
+	}
+	return []c01Sentinel{{"NE(" + r + ",nil)", isNilConst}}
+}
+
+// refineByResults adds to the facts of exit ex of fi.Fn the facts of the exits of a callee that are consistent with the
+// result tests ex passed — (1) above — and restates the facts about the callee's results under the description of the
+// object they denote — (3).
+func (e *c01Eng) refineByResults(fi *FnInfo, ex *ExitSum) {
+	rcs := e.resultCalls(fi.Fn)
+	if len(rcs) == 0 {
+		return
+	}
+	for _, rc := range rcs {
+		if _, ok := ex.Checked["EQ("+descTailErr(rc.c)+",nil)"]; !ok {
+			continue
+		}
+		for _, k := range rc.ks {
+			for _, sn := range c01Sentinels(rc, k) {
+				if _, ok := ex.Checked[sn.label]; !ok {
+					continue
+				}
+				s := e.Summarize(rc.g, Mode{Kind: mErr})
+				if s == nil || !s.Complete {
+					continue
+				}
+				var common map[string]string
+				n := 0
+				for _, gx := range s.Exits {
+					v, _ := exitResult(gx, k)
+					if v == nil || sn.excluded(v) {
+						continue
+					}
+					if n == 0 {
+						common = map[string]string{}
+						for l, st := range gx.Checked {
+							common[l] = st
+						}
+					} else {
+						for l := range common {
+							if _, ok := gx.Checked[l]; !ok {
+								delete(common, l)
+							}
+						}
+					}
+					n++
+				}
+				if n == 0 || n == len(s.Exits) {
+					continue // (no consistent exit: the edge is infeasible; all exits: the engine's composition already says it)
+				}
+				_, names, descs, ok := e.callFrame(rc.c)
+				if !ok || names == nil {
+					continue
+				}
+				for l, st := range common {
+					l = substParams(l, names, descs)
+					if _, ok := ex.Checked[l]; !ok {
+						ex.Checked[l] = st
+					}
+				}
+			}
+		}
+	}
+	canon := e.canon(fi.Fn)
+	for _, l := range labelList(ex.Checked) {
+		if l2 := canon(l); l2 != l {
+			if _, ok := ex.Checked[l2]; !ok {
+				ex.Checked[l2] = ex.Checked[l]
+			}
+		}
+	}
+}
+
+// canon: the rewriting (3) of descriptions in fn's frame; the identity when fn has no such call.
+func (e *c01Eng) canon(fn *ssa.Function) func(string) string {
+	type rw struct {
+		head, repl string
+		k          int
+	}
+	var rws []rw
+	for _, rc := range e.resultCalls(fn) {
+		if !rc.unique {
+			continue
+		}
+		for k, a := range rc.alias {
+			if a != "" {
+				rws = append(rws, rw{"call:" + fnName(rc.g), a, k})
+			}
+		}
+	}
+	return func(l string) string {
+		for _, r := range rws {
+			if strings.Contains(l, r.head+"(") {
+				l = c01RewriteRes(l, r.head, r.k, r.repl)
+			}
+		}
+		return l
+	}
+}
+
+// c01RewriteRes replaces every `head(<balanced arguments>)#k` in l by repl (whatever the arguments are printed as: nested
+// descriptions are abbreviated by depth).
+func c01RewriteRes(l, head string, k int, repl string) string {
+	suffix := fmt.Sprintf("#%d", k)
+	var sb strings.Builder
+	at := 0
+	for {
+		i := strings.Index(l[at:], head+"(")
+		if i < 0 {
+			break
+		}
+		start := at + i
+		_, n := c01CallArgs(l[start+len(head):])
+		if n == 0 {
+			break
+		}
+		end := start + len(head) + n
+		rest := l[end:]
+		if strings.HasPrefix(rest, suffix) && (len(rest) == len(suffix) || rest[len(suffix)] < '0' || rest[len(suffix)] > '9') {
+			sb.WriteString(l[at:start])
+			sb.WriteString(repl)
+			at = end + len(suffix)
+		} else {
+			sb.WriteString(l[at : start+len(head)])
+			at = start + len(head)
+		}
+	}
+	sb.WriteString(l[at:])
+	return sb.String()
+}
+
+// sentinelSkipEdges: the edges of fi.Fn that say "the helper took its skip exit" — (2) above.
+func (e *c01Eng) sentinelSkipEdges(fi *FnInfo, depth int) map[edgeKey]bool {
+	out := map[edgeKey]bool{}
+	if depth > 2 {
+		return out
+	}
+	for _, rc := range e.resultCalls(fi.Fn) {
+		errL := "EQ(" + descTailErr(rc.c) + ",nil)"
+		for _, k := range rc.ks {
+			for _, sk := range e.skipSentinelLabels(rc, k, depth) {
+				for ek := range fi.edgesMatching(func(l string, _ *ssa.If, _ bool) bool { return l == sk }) {
+					gs := c01BlockGuards(fi, fi.Fn.Blocks[ek.b])
+					if _, ok := gs[errL]; ok {
+						out[ek] = true
+					}
+				}
+			}
+		}
+	}
+	return out
+}
+
+// skipSentinelLabels: the edge labels over result k of the call that can only hold, given err == nil, when the callee
+// returned from behind its own skip edge.
+func (e *c01Eng) skipSentinelLabels(rc *c01ResCall, k int, depth int) []string {
+	gfi := e.w.Info(rc.g)
+	se := c01SkipEdges(gfi, depth+1)
+	if len(se) == 0 {
+		return nil
+	}
+	s := e.summarizeFrom(gfi, Mode{Kind: mErr}, entryState(), se)
+	if s == nil || !s.Complete {
+		return nil
+	}
+	r := res(rc.c, k)
+	tup := rc.c.Type().(*types.Tuple)
+	if isBoolType(tup.At(k).Type()) {
+		// every non-skip success exit answers the same constant: the other value is the skip sentinel
+		var val, set bool
+		for _, gx := range s.Exits {
+			v, _ := exitResult(gx, k)
+			b, ok := boolConst(v)
+			if v == nil || !ok || (set && b != val) {
+				return nil
+			}
+			val, set = b, true
+		}
+		if !set {
+			return nil
+		}
+		if val {
+			return []string{"F(" + r + ")", "EQ(" + r + ",const:false)", "NE(" + r + ",const:true)"}
+		}
+		return c01TruthLabels(r)
+	}
+	for _, gx := range s.Exits {
+		v, at := exitResult(gx, k)
+		if v == nil || !gfi.nonNil(v, at) {
+			return nil
+		}
+	}
+	return []string{"EQ(" + r + ",nil)"}
+}
+
+// c01SkipEdges: the edges on which the applicable verification level is skip: the level test itself, or the sentinel of
+// a helper that made it.
+func c01SkipEdges(fi *FnInfo, depth int) map[edgeKey]bool {
+	out := fi.edgesMatching(func(l string, _ *ssa.If, _ bool) bool { return isSkipLabel(l) })
+	for k := range c01Engine(fi.W).sentinelSkipEdges(fi, depth) {
+		out[k] = true
+	}
+	return out
 }
